@@ -702,6 +702,8 @@ def case_strategy(draw: Any, disabled: frozenset[str]) -> dict[str, Any]:
         "catalog": catalog,
         "auto_escape": bool(cfg & 1),
         "undefined": "strict" if cfg & 14 == 14 else "default",
+        # Environment(validate_filter_arguments=False): nothing is checked when the template is parsed
+        "novalidate": cfg % 5 == 0,
     }
 
 
@@ -816,6 +818,8 @@ class C05(Prop):
             auto_escape=bool(case.get("auto_escape")),
             undefined=StrictUndefined if case.get("undefined") == "strict" else None,
         )
+        if case.get("novalidate"):
+            env.validate_filter_arguments = False
         for fname in list(env.filters):
             env.filters[fname] = FilterSpy(fname, env.filters[fname], sink)
 
